@@ -623,6 +623,10 @@ def run(ctx):
     from . import c13 as _c13
     borrow(ctx, "C01", _c13.rule_groupkey, py)
     from .. import lints
+    # shared clause: every conversion factor the quantities of the rate law go through is taken from the converted object's own
+    # system to the destination (C06.ARGS)
+    from . import c06 as _c06
+    borrow(ctx, "C01", _c06.rule_convert_args, py, "C06.ARGS-CONV")
     lints.run(ctx, "C01", ctx.py, ["kinetics", "rdsystem", "librdengine", "value_processing", "rdnetwork", "rdgraphspace", "rdgridspace"])
     ctx.assume("agreement to rounding is not decided; that the mean is harmonic is decided only relatively (all four "
                "implementations are the same symmetric rational function of the right dimension)")
